@@ -136,7 +136,7 @@ def pDeclBodyWithSpec (self : Self) (spec : DeclSpec) (sawType : Bool) : P (List
 def requireSpec (r : Option DeclSpec × Bool × Option Coord) (allowNoType : Bool) :
     P (DeclSpec × Bool × Option Coord) := do
   match r with
-  | (none, _, _) => parseError "Invalid declaration" (.text (← lexFilename))
+  | (none, _, _) => parseError "Invalid declaration" (← lexFileLoc)
   | (some spec, sawType, first) =>
     if !sawType && !allowNoType then parseError "Missing type in declaration" (locOfCoord first)
     else pure (spec, sawType, first)
@@ -254,7 +254,7 @@ def pSqlLoop (self : Self) (spec : Option DeclSpec) (sawType sawAlign : Bool) (f
 /-- `_parse_specifier_qualifier_list` -/
 def pSpecifierQualifierList (self : Self) : P DeclSpec := do
   match ← self (.sqlLoop none false false none) with
-  | (none, _, _, _) => parseError "Invalid specifier list" (.text (← lexFilename))
+  | (none, _, _, _) => parseError "Invalid specifier list" (← lexFileLoc)
   | (some spec, sawType, sawAlign, first) =>
     if !sawType && !sawAlign then parseError "Missing type in declaration" (locOfCoord first)
     else pure spec
